@@ -155,6 +155,38 @@ Proof.
     + exists ex0, ey0. repeat split; auto; lia.
 Qed.
 
+(* the forward expansion stops at a point where the texts differ (or one of them ends) *)
+Definition maxpt (a b : nat) : Prop :=
+  a < length x -> b < length y -> nth_error x a <> nth_error y b.
+Definition eof (a b : nat) : Prop := length x <= a /\ length y <= b.
+
+Lemma expand_fwd_maxpt : forall fuel ex0 ey0 ex ey,
+  expand_fwd fuel x y ex0 ey0 = Ok (ex, ey) -> maxpt ex ey.
+Proof.
+  assert (Hstop : forall ex0 ey0 ex ey,
+    (if (ex0 <? length x) && (ey0 <? length y)
+     then do a <- idx x ex0; do b <- idx y ey0;
+          if bytes_eqb a b then OutOfFuel else Ok (ex0, ey0)
+     else Ok (ex0, ey0)) = Ok (ex, ey) -> maxpt ex ey).
+  { intros ex0 ey0 ex ey H. destruct ((ex0 <? length x) && (ey0 <? length y)) eqn:Ec.
+    - apply andb_true_iff in Ec as [Ec1 Ec2]. apply Nat.ltb_lt in Ec1, Ec2.
+      rewrite (idx_ok x ex0 []), (idx_ok y ey0 []) in H by lia. simpl in H.
+      destruct (bytes_eqb (nth ex0 x []) (nth ey0 y [])) eqn:Eq; [discriminate|].
+      inversion H; subst. intros _ _.
+      rewrite (nth_error_nth' x [] Ec1), (nth_error_nth' y [] Ec2). intro E. inversion E as [E'].
+      rewrite E', bytes_eqb_refl in Eq. discriminate.
+    - inversion H; subst. intros A B. apply andb_false_iff in Ec as [Ec | Ec]; apply Nat.ltb_ge in Ec; lia. }
+  induction fuel as [|fu IH]; intros ex0 ey0 ex ey H.
+  - apply (Hstop ex0 ey0). exact H.
+  - simpl in H. destruct ((ex0 <? length x) && (ey0 <? length y)) eqn:Ec.
+    + destruct (idx x ex0) as [a| |] eqn:Ea; simpl in H; try discriminate.
+      destruct (idx y ey0) as [b| |] eqn:Eb; simpl in H; try discriminate.
+      destruct (bytes_eqb a b) eqn:Eq.
+      * apply (IH _ _ _ _ H).
+      * apply (Hstop ex0 ey0). rewrite Ec, Ea. simpl. rewrite Eb. simpl. rewrite Eq. exact H.
+    + apply (Hstop ex0 ey0). rewrite Ec. exact H.
+Qed.
+
 (* ---------------------------------------------------------------- what the loop needs of the matches *)
 
 (* an inner pair: in range, equal lines, and the line occurs nowhere else in x *)
@@ -235,6 +267,54 @@ Lemma Inv_intro e0x e0y dx dy chx chy cntx cnty ctext :
   Inv e0x e0y dx dy chx chy cntx cnty ctext.
 Proof. unfold Inv. intuition. Qed.
 
+(* after a maximal point that is not the end of both texts, the next match (an anchor or the end
+   sentinel) cannot be reached by common lines only: something is deleted or added *)
+Lemma changes_nonempty dx dy mx my stx sty :
+  maxpt dx dy -> ~ eof dx dy -> mok (mx, my) ->
+  dx <= stx -> stx <= mx -> dy <= sty -> sty <= my -> mx <= length x -> my <= length y ->
+  mx + sty = my + stx -> sub x stx mx = sub y sty my ->
+  dx < stx \/ dy < sty.
+Proof.
+  intros Hmax Hne Hmok H1 H2 H3 H4 H5 H6 H7 H8.
+  destruct (Nat.eq_dec stx dx) as [-> | N1]; [|lia].
+  destruct (Nat.eq_dec sty dy) as [-> | N2]; [|lia].
+  exfalso. destruct (Nat.eq_dec mx dx) as [-> | N3].
+  - assert (my = dy) by lia. subst my.
+    destruct Hmok as [(A1 & A2 & A3 & _) | E]; simpl in *.
+    + apply (Hmax A1 A2). exact A3.
+    + inversion E. apply Hne. unfold eof. lia.
+  - assert (Hd : 0 < mx - dx) by lia.
+    pose proof (sub_eq_nth x y dx mx dy my 0 H8 ltac:(lia) Hd) as E.
+    rewrite !Nat.add_0_r in E. apply Hmax; [lia | lia | exact E].
+Qed.
+
+(* the runs of context lines of the pending chunk obey the context rule so far *)
+Definition RunsOK (pre : list nat) (cur chx chy : nat) : Prop :=
+  match pre with
+  | [] => cur <= ctxC /\ (cur = ctxC \/ (chx = 0 /\ chy = 0))
+  | lead :: inners =>
+      lead <= ctxC /\ (lead = ctxC \/ (chx = 0 /\ chy = 0)) /\ Forall inner_ok inners /\ inner_ok cur
+  end.
+
+Definition Inv2 (dx dy chx chy : nat) (ctext : list (tag * line)) : Prop :=
+  (exists pre cur, runs ctext = pre ++ [cur] /\ RunsOK pre cur chx chy) /\
+  (ctext <> [] -> maxpt dx dy /\ ~ eof dx dy).
+
+Lemma RunsOK_changes pre cur chx chy k :
+  RunsOK pre cur chx chy -> RunsOK (pre ++ cur :: repeat 0 k) 0 chx chy.
+Proof.
+  assert (Hz : Forall inner_ok (repeat 0 k)).
+  { apply Forall_forall. intros z Hz. apply repeat_spec in Hz. subst. left. reflexivity. }
+  destruct pre as [|lead inners]; simpl.
+  - intros (H1 & H2). repeat split; auto. left. reflexivity.
+  - intros (H1 & H2 & H3 & H4). repeat split; auto.
+    + apply Forall_app. split; [assumption|]. constructor; assumption.
+    + left. reflexivity.
+Qed.
+
+Lemma RunsOK_run pre chx chy r : pre <> [] -> inner_ok r -> RunsOK pre 0 chx chy -> RunsOK pre r chx chy.
+Proof. destruct pre; [contradiction|]. simpl. intuition. Qed.
+
 Lemma sub_empty_eq (l : list line) a b : a <= b -> b <= length l -> sub l a b = [] -> a = b.
 Proof. intros H1 H2 E. apply (f_equal (@length _)) in E. rewrite sub_length in E by lia. simpl in E. lia. Qed.
 
@@ -260,16 +340,19 @@ Lemma pos_of_if p c : (if 0 <? c then S p else p) = pos_of p c.
 Proof. unfold pos_of. destruct c; reflexivity. Qed.
 
 Lemma diff_loop_ok : forall ms e0x e0y dx dy chx chy cntx cnty ctext,
-  Inv e0x e0y dx dy chx chy cntx cnty ctext -> P dx dy ms ->
+  Inv e0x e0y dx dy chx chy cntx cnty ctext -> Inv2 dx dy chx chy ctext ->
+  (ctext = [] \/ Forall mok ms) -> P dx dy ms ->
   exists hs, diff_loop x y ms dx dy chx chy cntx cnty ctext = Ok hs /\
-             hunks_rel e0x e0y (skipn e0x x) (skipn e0y y) hs.
+             hunks_rel e0x e0y (skipn e0x x) (skipn e0y y) hs /\
+             Forall (hunk_ctx_ok x y) hs.
 Proof.
-  induction ms as [|[mx my] ms IH]; intros e0x e0y dx dy chx chy cntx cnty ctext HI HP.
+  induction ms as [|[mx my] ms IH]; intros e0x e0y dx dy chx chy cntx cnty ctext HI HI2 Hmk HP.
   { destruct HP as (Hne & _). contradiction. }
   destruct HI as (I1 & I2 & I3 & I4 & I5 & I6 & I7 & I8 & I9 & I10 & I11 & I12).
+  assert (Hmok' : Forall mok ms) by (destruct HP as (_ & _ & _ & _ & Hm); exact Hm).
   simpl.
   destruct (Nat.ltb_spec mx dx) as [Hlt | Hge].
-  { apply IH; [apply Inv_intro; assumption|]. eapply P_skip; eauto. }
+  { apply IH; [apply Inv_intro; assumption | assumption | right; assumption |]. eapply P_skip; eauto. }
   assert (Hm : mx <= length x /\ my <= length y /\ dy <= my).
   { destruct HP as (_ & _ & Hf & _). inversion Hf; subst. simpl in *. intuition. }
   destruct Hm as (M1 & M2 & M3).
@@ -289,8 +372,32 @@ Proof.
   set (d2 := sty - dy). assert (Hd2 : sty = dy + d2) by (unfold d2; lia). clearbody d2.
   set (r := ex - stx). assert (Hr : ex = stx + r) by (unfold r; lia). clearbody r.
   assert (Hr' : ey = sty + r) by lia.
+  pose proof (expand_fwd_maxpt _ _ _ _ _ Ef) as Hmax.
+  (* the runs of the chunk after the changed lines of this pass *)
+  assert (S2 : (ctext ++ tagged TDel (sub x dx stx) ++ tagged TAdd (sub y dy sty) = [] /\ RunsOK [] 0 chx chy) \/
+               (exists pre2, pre2 <> [] /\ RunsOK pre2 0 chx chy /\
+                  forall l, runs ((ctext ++ tagged TDel (sub x dx stx) ++ tagged TAdd (sub y dy sty)) ++ tagged TCtx l)
+                            = pre2 ++ [length l])).
+  { destruct HI2 as ((pre & cur & Er & Hok) & JM).
+    set (ch := tagged TDel (sub x dx stx) ++ tagged TAdd (sub y dy sty)).
+    assert (Hch : length ch = d1 + d2).
+    { unfold ch, tagged. rewrite app_length, !map_length, !sub_length by lia. lia. }
+    destruct (Nat.eq_dec (d1 + d2) 0) as [Z | NZ].
+    - assert (ch = []) by (destruct ch; [reflexivity | simpl in Hch; lia]).
+      destruct ctext as [|t ct].
+      + left. rewrite H. split; [reflexivity|].
+        unfold runs in Er. simpl in Er. destruct pre as [|a [|b pre]]; try discriminate.
+        inversion Er; subst. exact Hok.
+      + exfalso. destruct JM as [J1 J2]; [discriminate|].
+        destruct Hmk as [Hmk | Hmk]; [discriminate|]. inversion Hmk as [|? ? Hm1 Hm2].
+        destruct (changes_nonempty dx dy mx my stx sty); try assumption; try lia.
+    - right. exists (pre ++ cur :: repeat 0 (length ch - 1)).
+      split; [destruct pre; discriminate|]. split; [apply RunsOK_changes; assumption|].
+      intro l. apply (runs_step ctext ch l pre cur Er).
+      + destruct ch; [simpl in Hch; lia | discriminate].
+      + apply all_change_del_add. }
   clear Eb Ef B6 B5.
-  set (ctext2 := ctext ++ tagged TDel (sub x dx stx) ++ tagged TAdd (sub y dy sty)).
+  set (ctext2 := ctext ++ tagged TDel (sub x dx stx) ++ tagged TAdd (sub y dy sty)) in *.
   assert (O2 : old_side ctext2 = sub x chx stx).
   { unfold ctext2. rewrite !old_side_app, old_side_del, old_side_add, app_nil_r, I9.
     apply sub_app; lia. }
@@ -301,16 +408,33 @@ Proof.
   destruct (((ex <? length x) || (ey <? length y)) &&
             ((r <? ctxC) || (nonempty ctext2 && (r <? ctxC + (ctxC + 0))))) eqn:Ebr.
   - (* the chunk continues *)
-    apply andb_true_iff in Ebr as [Eeof _].
+    apply andb_true_iff in Ebr as [Eeof Erun].
+    assert (Hrun : r < 2 * ctxC /\ (ctext2 = [] -> r < ctxC)).
+    { apply orb_true_iff in Erun as [E | E].
+      - apply Nat.ltb_lt in E. split; [lia | auto].
+      - apply andb_true_iff in E as [E1 E2]. apply Nat.ltb_lt in E2. split; [lia|].
+        intros ->. discriminate. }
+    assert (Hneof : ~ eof ex ey).
+    { intros [E1 E2]. apply orb_true_iff in Eeof as [E | E]; apply Nat.ltb_lt in E; lia. }
     rewrite (slice_ok x stx ex) by lia. simpl. rewrite sub_length by lia.
     replace (ex - stx) with r by lia.
     assert (Hne : ms <> []).
     { intro; subst ms. destruct HP as (_ & Hl & _). simpl in Hl. inversion Hl; subst mx my.
-      apply orb_true_iff in Eeof as [E | E]; apply Nat.ltb_lt in E; lia. }
+      apply Hneof. unfold eof. lia. }
     apply IH.
     + apply Inv_intro; try lia; try assumption.
       * rewrite old_side_app, old_side_ctx, O2. apply sub_app; lia.
       * rewrite new_side_app, new_side_ctx, N2, R. apply sub_app; lia.
+    + split; [|intros _; split; assumption].
+      assert (Hlen : length (sub x stx ex) = r) by (rewrite sub_length; lia).
+      destruct S2 as [(E0 & Hok) | (pre2 & Hp2 & Hok & Hruns)].
+      * rewrite E0. exists [], r. split.
+        -- unfold runs. simpl. rewrite runs_from_ctx, Hlen. reflexivity.
+        -- simpl in *. destruct Hrun as [_ Hrun]. specialize (Hrun E0).
+           split; [lia|]. destruct Hok as [_ [Hc | Hc]]; [lia | right; exact Hc].
+      * exists pre2, r. split; [rewrite Hruns, Hlen; reflexivity|].
+        apply RunsOK_run; [assumption | right; lia | assumption].
+    + right. assumption.
     + apply (P_step dx dy mx my); auto; lia.
   - (* the chunk ends here *)
     assert (Hbr : (length x <= ex /\ length y <= ey) \/
@@ -334,12 +458,12 @@ Proof.
               do xs4 <- slice x chx' ex;
               diff_loop x y ms ex ey chx' chy' (c0 + length xs4) (c0 + length xs4)
                         (ct0 ++ tagged TCtx xs4)) = Ok rest /\
-        hunks_rel g0x g0y (skipn g0x x) (skipn g0y y) rest).
+        hunks_rel g0x g0y (skipn g0x x) (skipn g0y y) rest /\ Forall (hunk_ctx_ok x y) rest).
     { intros g0x g0y c0 ct0 (-> & -> & G1 & G2 & G3 & G4).
       destruct ((length x <=? ex) && (length y <=? ey)) eqn:Eeof.
       - apply andb_true_iff in Eeof as [E1 E2]. apply Nat.leb_le in E1, E2.
         specialize (G3 E1 E2).
-        exists []. split; [reflexivity|]. simpl.
+        exists []. split; [reflexivity|]. split; [|constructor]. simpl.
         assert (ex = length x) by lia. assert (ey = length y) by lia.
         rewrite <- (sub_full x), <- (sub_full y).
         apply (run_sub stx ex sty ey); try lia; try assumption.
@@ -358,6 +482,11 @@ Proof.
           * apply (run_sub stx ex sty ey); try lia; try assumption.
           * rewrite old_side_ctx. reflexivity.
           * rewrite new_side_ctx. apply (run_sub stx ex sty ey); try lia; try assumption.
+        + split.
+          * exists [], ctxC. split; [|simpl; split; [lia | left; reflexivity]].
+            unfold runs. simpl. rewrite runs_from_ctx, sub_length by lia. f_equal. lia.
+          * intros _. split; [assumption|]. intros [E1 E2]. apply Hneof. split; assumption.
+        + right. assumption.
         + apply (P_step dx dy mx my); auto; lia. }
     destruct (nonempty ctext2) eqn:Ene.
     + (* emit a hunk *)
@@ -366,6 +495,9 @@ Proof.
       assert (Hn' : ~ (length x <= ex /\ length y <= ey) -> n = ctxC /\ ctxC + ctxC <= r).
       { intro Hneof. destruct Hbr as [Hbr | (Hc & Hbr)]; [contradiction|].
         destruct Hbr as [Hbr | Hbr]; [rewrite Hbr in Ene; discriminate|]. unfold n. lia. }
+      assert (Hn'' : n = ctxC \/ (n = r /\ r < ctxC /\ eof ex ey)).
+      { destruct Hbr as [Hbr | (Hc & _)]; [|left; unfold n; lia].
+        destruct (Nat.lt_ge_cases r ctxC); [right | left]; unfold n, eof; lia. }
       clearbody n.
       rewrite (slice_ok x stx (stx + n)) by lia. simpl. rewrite sub_length by lia.
       replace (stx + n - stx) with n by lia.
@@ -376,13 +508,31 @@ Proof.
       { unfold ctext'. rewrite new_side_app, new_side_ctx, N2.
         rewrite (run_sub stx ex sty ey stx (stx + n) sty (sty + n)); try lia; try assumption.
         apply sub_app; lia. }
+      assert (Rn : forall pre2, (forall l, runs (ctext2 ++ tagged TCtx l) = pre2 ++ [length l]) ->
+                                runs ctext' = pre2 ++ [n]).
+      { intros pre2 Hruns. unfold ctext'. rewrite Hruns, sub_length by lia. f_equal. f_equal. lia. }
+      assert (Ne2 : ctext2 <> []) by (intro E0; rewrite E0 in Ene; discriminate).
       clearbody ctext'.
       apply bind_ok_exists with
-        (Q := fun rest => hunks_rel (stx + n) (sty + n) (skipn (stx + n) x) (skipn (sty + n) y) rest).
+        (Q := fun rest => hunks_rel (stx + n) (sty + n) (skipn (stx + n) x) (skipn (sty + n) y) rest /\
+                          Forall (hunk_ctx_ok x y) rest).
       * apply (Hnext (stx + n) (sty + n) 0 []).
         split; [reflexivity|]. split; [reflexivity|]. split; [lia|]. split; [lia|]. split; [lia|].
         intro Hneof. apply Hn' in Hneof. lia.
-      * intros rest Hrel. eexists. split; [reflexivity|]. simpl.
+      * intros rest [Hrel Hctx]. eexists. split; [reflexivity|]. split.
+        2:{ constructor; [|exact Hctx]. simpl.
+            destruct S2 as [(E0 & _) | (pre2 & Hp2 & Hok & Hruns)].
+            { contradiction. }
+            destruct pre2 as [|lead inners]; [contradiction|].
+            destruct Hok as (K1 & K2 & K3 & _).
+            exists chx, chy, lead, inners, n. cbn [sx cx sy cy body]. rewrite !pos_of_if, !start_pos_pos_of.
+            split; [reflexivity|]. split; [reflexivity|]. split.
+            { exact (Rn (lead :: inners) Hruns). }
+            split; [assumption|]. split; [assumption|]. split; [assumption|].
+            split; [destruct Hn'' as [-> | (-> & ? & _)]; lia|].
+            destruct Hn'' as [E | (E & _ & E12)]; [left; exact E | right]. destruct E12 as [E1 E2].
+            unfold eof in *. lia. }
+        simpl.
         exists (sub x e0x chx), (skipn (stx + n) x), (skipn (sty + n) y).
         rewrite O3, N3, !sub_length by lia. rewrite !pos_of_if.
         replace (e0x + (chx - e0x)) with chx by lia.
@@ -403,13 +553,14 @@ Proof.
       { apply (sub_empty_eq y); try lia. rewrite <- N2, Ene. reflexivity. }
       assert (cntx + d1 = 0) by lia. assert (cnty + d2 = 0) by lia.
       apply bind_ok_exists with
-        (Q := fun rest => hunks_rel e0x e0y (skipn e0x x) (skipn e0y y) rest).
+        (Q := fun rest => hunks_rel e0x e0y (skipn e0x x) (skipn e0y y) rest /\
+                          Forall (hunk_ctx_ok x y) rest).
       * (* the same ghost position: first move it to (stx, sty), where the gap ends *)
-        destruct (Hnext stx sty (cntx + d1) ctext2) as (rest & Er & Hrel).
+        destruct (Hnext stx sty (cntx + d1) ctext2) as (rest & Er & Hrel & Hctx).
         { split; [assumption|]. split; [assumption|]. split; [lia|]. split; [lia|]. split; [lia|].
           intro Hneof. destruct Hbr as [Hbr | (Hc & _)]; [contradiction | lia]. }
         replace (cnty + d2) with (cntx + d1) by lia.
-        exists rest. split; [exact Er|].
+        exists rest. split; [exact Er|]. split; [|exact Hctx].
         (* hunks_rel from (e0x,e0y) given hunks_rel from (stx,sty) and the equal gap *)
         clear - Hrel I8 I3 I5 I7 H H0 I4 I6 I1 I2 B1 B3.
         subst chx chy.
@@ -534,12 +685,16 @@ Qed.
 (* ---------------------------------------------------------------- the main result about the loop *)
 
 Lemma diff_loop_matches_ok x y ms : matches_ok x y ms ->
-  exists hs, diff_loop x y ms 0 0 0 0 0 0 [] = Ok hs /\ hunks_rel 0 0 x y hs.
+  exists hs, diff_loop x y ms 0 0 0 0 0 0 [] = Ok hs /\ hunks_rel 0 0 x y hs /\
+             Forall (hunk_ctx_ok x y) hs.
 Proof.
   intro H. apply matches_ok_P in H.
-  destruct (diff_loop_ok x y ms 0 0 0 0 0 0 0 0 []) as (hs & E & R); [|assumption|].
+  destruct (diff_loop_ok x y ms 0 0 0 0 0 0 0 0 []) as (hs & E & R & Hc); [| | |assumption|].
   - apply Inv_intro; rewrite ?sub_nil; simpl; try lia; reflexivity.
-  - exists hs. split; assumption.
+  - split; [|intro F; contradiction].
+    exists [], 0. split; [reflexivity|]. simpl. split; [lia | right; split; reflexivity].
+  - left. reflexivity.
+  - exists hs. repeat split; assumption.
 Qed.
 
 (* everything the property says follows from [hunks_rel] *)
@@ -555,7 +710,7 @@ Qed.
 (* ---------------------------------------------------------------- the theorems under [tgs_ok] *)
 
 Theorem diff_hunks_rel_partial x y : tgs_ok x y = true ->
-  exists hs, diff_hunks x y = Ok hs /\ hunks_rel 0 0 x y hs.
+  exists hs, diff_hunks x y = Ok hs /\ hunks_rel 0 0 x y hs /\ Forall (hunk_ctx_ok x y) hs.
 Proof.
   unfold tgs_ok, diff_hunks. intro H.
   destruct (tgs x y) as [ms| |]; try discriminate. simpl.
@@ -567,22 +722,29 @@ Proof. intro H. destruct (diff_hunks_rel_partial x y H) as (hs & E & _). eauto. 
 
 Theorem hunks_wf_partial x y hs : tgs_ok x y = true -> diff_hunks x y = Ok hs -> hunks_wf x y hs.
 Proof.
-  intros H E. destruct (diff_hunks_rel_partial x y H) as (hs' & E' & R).
+  intros H E. destruct (diff_hunks_rel_partial x y H) as (hs' & E' & R & _).
   assert (hs' = hs) by congruence. subst. apply hunks_rel_consequences. assumption.
 Qed.
 
 Theorem patch_correct_partial x y hs :
   tgs_ok x y = true -> diff_hunks x y = Ok hs -> apply_hunks x hs = Some y.
 Proof.
-  intros H E. destruct (diff_hunks_rel_partial x y H) as (hs' & E' & R).
+  intros H E. destruct (diff_hunks_rel_partial x y H) as (hs' & E' & R & _).
   assert (hs' = hs) by congruence. subst. apply hunks_rel_consequences. assumption.
 Qed.
 
 Theorem patch_reverse_partial x y hs :
   tgs_ok x y = true -> diff_hunks x y = Ok hs -> apply_hunks y (swap_hunks hs) = Some x.
 Proof.
-  intros H E. destruct (diff_hunks_rel_partial x y H) as (hs' & E' & R).
+  intros H E. destruct (diff_hunks_rel_partial x y H) as (hs' & E' & R & _).
   assert (hs' = hs) by congruence. subst. apply hunks_rel_consequences. assumption.
+Qed.
+
+Theorem hunks_ctx_partial x y hs :
+  tgs_ok x y = true -> diff_hunks x y = Ok hs -> Forall (hunk_ctx_ok x y) hs.
+Proof.
+  intros H E. destruct (diff_hunks_rel_partial x y H) as (hs' & E' & _ & R).
+  assert (hs' = hs) by congruence. subst. assumption.
 Qed.
 
 (* Diff returns nothing exactly when the texts are byte-identical (needs nothing of tgs) *)
